@@ -32,8 +32,21 @@ def parseRspSessions : Bytes → Nat → List (Bytes × Nat × Bytes)
         | none => []
         | some (h, r') => (n, at', h) :: parseRspSessions r' f
 
+def cname : Check → String
+  | .pass => "pass" | .failAuth => "auth" | .failPolicy => "policy" | .failPolicyCC => "policy-cc" | .unavailable => "unavailable"
+  | .authType => "auth-type" | .badAttributes => "attributes" | .noSession => "no-session"
 def vname : Verdict → String
-  | .ok => "ok" | .authMissing => "missing" | .authFail i => s!"fail{i}" | .unknownEntity => "unknown-entity"
+  | .ok => "ok" | .authMissing => "missing" | .authFail i w => s!"fail{i}-{cname w}" | .unknownEntity => "unknown-entity"
+
+/-- the return codes that express this refusal for session `i` (0-based) -/
+def rcsOf (i : Nat) : Check → List Nat
+  | .failAuth => [RC_AUTH_FAIL + 0x800 + (i + 1) * 256, RC_BAD_AUTH + 0x800 + (i + 1) * 256]
+  | .failPolicy => [0x09D + 0x800 + (i + 1) * 256]
+  | .failPolicyCC => [0x0A4 + 0x800 + (i + 1) * 256]
+  | .unavailable => [0x12F]
+  | .authType => [0x124]
+  | .badAttributes => [0x082 + 0x800 + (i + 1) * 256]
+  | _ => []
 
 def rspHandleBytes (cc : Nat) : Nat :=
   match Gen.ccTable.find? (·.1 == cc) with
@@ -48,8 +61,13 @@ def authKind (st : Auth.St) (cmd : Cmd) : String :=
     match st.session a.sh with
     | none => "hmac-nosession"
     | some s =>
-      if !s.bound then "hmac-unbound"
+      if s.policy then s!"policy(auth={s.needAuth},pw={s.needPw},cc={s.pcc != 0})"
+      else if !s.bound then "hmac-unbound"
       else if (cmd.handles.head?.bind st.ent).any (boundTo s) then "hmac-bound" else "hmac-bound-elsewhere"
+
+def CC_NV_Write : Nat := 0x137
+def CC_NV_ChangeAuth : Nat := 0x13B
+def CC_NV_UndefineSpaceSpecial : Nat := 0x11F
 
 def stepAuth (c : CS) (l : Line) : CS :=
   let req := l.bytes "req"; let rsp := l.bytes "rsp"; let rc := l.nat "rc"
@@ -65,13 +83,14 @@ def stepAuth (c : CS) (l : Line) : CS :=
         if rc = 0 then mism c s!"SPEC[auth-missing-accepted] cc={cmd.cc}: needs {requiredAuths attr} authorization(s), {cmd.auths.length} given, command executed"
         else if rc ≠ RC_AUTH_MISSING then mism c s!"SPEC[auth-missing-rc] cc={cmd.cc}: needs {requiredAuths attr} authorization(s), {cmd.auths.length} given, rc={rc} (expected TPM_RC_AUTH_MISSING)"
         else c
-    | .authFail i =>
-        if rc = 0 then mism c s!"SPEC[auth-bypass] {l.str "what"} cc={cmd.cc} corrupt={l.nat "corrupt"}: authorization {i} does not verify (model) but the command succeeded"
-        else if rc ≠ RC_AUTH_FAIL + 0x800 + (i + 1) * 256 ∧ rc ≠ RC_BAD_AUTH + 0x800 + (i + 1) * 256 then
-          mism c s!"SPEC[auth-fail-rc] {l.str "what"} cc={cmd.cc} corrupt={l.nat "corrupt"}: rc={rc}, expected AUTH_FAIL/BAD_AUTH for session {i + 1}"
+    | .authFail i why =>
+        if rc = 0 then mism c s!"SPEC[auth-bypass] {l.str "what"} cc={cmd.cc} corrupt={l.nat "corrupt"} ({kind}): authorization {i} must be refused ({cname why}) but the command succeeded"
+        else if !(rcsOf i why).contains rc then
+          mism c s!"SPEC[auth-fail-rc] {l.str "what"} cc={cmd.cc} corrupt={l.nat "corrupt"} ({kind}): rc={rc}, expected {rcsOf i why} ({cname why}, session {i + 1})"
         else c
     | .ok =>
-        let c := if l.nat "corrupt" ≠ 0 then mism c s!"generator: corrupt={l.nat "corrupt"} but the model accepts ({l.str "what"})" else c
+        -- a policy session without authValue does not protect the parameters: altered parameters may fail on their own
+        if rc ≠ 0 ∧ l.nat "corrupt" = 4 then c else
         if rc ≠ 0 then mism c s!"SPEC[valid-auth-refused] {l.str "what"} cc={cmd.cc} ({kind}): a correct authorization was answered rc={rc}" else
         -- response: nonce rolls, HMAC verifies
         let body := rsp.drop (10 + rspHandleBytes cmd.cc)
@@ -88,18 +107,39 @@ def stepAuth (c : CS) (l : Line) : CS :=
               | none => c
               | some s =>
                 let c := if nt = s.nonceTPM then mism c s!"SPEC[nonce-not-rolled] session {a.sh}: nonceTPM unchanged after a successful command" else c
-                let exp := expectedRspHmac s e cmd.cc rparams nt a.nonce rattrs
-                let c := if exp ≠ rh' then mism c s!"SPEC[response-hmac] {l.str "what"} cc={cmd.cc}: response HMAC {hexOfBytes rh'} ≠ reference {hexOfBytes exp}" else c
-                { c with st := c.st.rollNonce a.sh nt }
+                -- the index deleted by NV_UndefineSpaceSpecial has no authValue any more
+                let e' : Entity := if cmd.cc = CC_NV_UndefineSpaceSpecial ∧ i = 0 then { e with auth := [] } else e
+                let key := sessKey s e'
+                let exp := if key = [] ∧ ¬ (s.policy ∧ s.needPw) then
+                    (if rh' = [] then [] else expectedRspHmac key cmd.cc rparams nt a.nonce rattrs)
+                  else if s.policy ∧ s.needPw then []
+                  else expectedRspHmac key cmd.cc rparams nt a.nonce rattrs
+                let c := if exp ≠ rh' then mism c s!"SPEC[response-hmac] {l.str "what"} cc={cmd.cc} ({kind}): response HMAC {hexOfBytes rh'} ≠ reference {hexOfBytes exp}" else c
+                { c with st := { (c.st.rollNonce a.sh nt) with sess := (c.st.rollNonce a.sh nt).sess.map (fun x => if x.handle == a.sh then resetPolicy x else x) } }
           | _, _, _ => c) c
-        -- NV_Write took effect in the model
-        if cmd.cc = 0x137 then
+        -- effects of the authorized command in the model
+        if cmd.cc = CC_NV_Write then
           match take2B cmd.params, cmd.handles[1]? with
           | some (data, r), some idx =>
             let off := (rdBE r 0 2).getD 0
             { c with nv := c.nv.map (fun (h, d) => if h = idx then (h, d.take off ++ data ++ d.drop (off + data.length)) else (h, d)) }
           | _, _ => c
+        else if cmd.cc = CC_NV_ChangeAuth then
+          match take2B cmd.params, cmd.handles[0]? with
+          | some (na, _), some idx => { c with st := c.st.setAuth idx na }
+          | _, _ => c
+        else if cmd.cc = CC_NV_UndefineSpaceSpecial then
+          match cmd.handles[0]? with
+          | some idx => { c with st := { c.st with ents := c.st.ents.filter (·.handle ≠ idx) }, nv := c.nv.filter (·.1 ≠ idx) }
+          | none => c
         else c
+
+def polOp (l : Line) : Option PolicyOp :=
+  let cc := (l.str "cc")
+  if cc = "16b" then some .authValue else if cc = "18c" then some .password
+  else if cc = "16c" then some (.commandCode (l.nat "code"))
+  else if cc = "171" then some (.or (((l.str "digests").splitOn ",").map (fun h => (Line.hexBytes h).getD [])))
+  else if cc = "180" then some .restart else none
 
 def step (c : CS) (l : Line) : CS :=
   let c := { c with line := c.line + 1 }
@@ -107,7 +147,11 @@ def step (c : CS) (l : Line) : CS :=
   | "hist" => { c with st := {}, nv := [] }
   | "ent" =>
       let h := l.nat "handle"
-      let e : Entity := { handle := h, name := l.bytes "name", auth := stripZeros (l.bytes "auth") }
+      let nvk : Bool := l.str "kind" == "nv"
+      let e : Entity := { handle := h, name := l.bytes "name", auth := stripZeros (l.bytes "auth"), policy := l.bytes "policy",
+                          isNv := nvk || (h / 16777216 == 1), isObject := h / 16777216 == 0x80,
+                          authRead := (l.nat? "authread").getD 1 == 1, authWrite := (l.nat? "authwrite").getD 1 == 1,
+                          polRead := (l.nat? "polread").getD 0 == 1, polWrite := (l.nat? "polwrite").getD 0 == 1 }
       let c := { c with st := { c.st with ents := e :: c.st.ents.filter (·.handle ≠ h) } }
       if l.get? "nv" ≠ none then { c with nv := (h, l.bytes "nv") :: c.nv.filter (·.1 ≠ h) } else c
   | "sstart" =>
@@ -115,13 +159,39 @@ def step (c : CS) (l : Line) : CS :=
       let bind := l.nat "bind"
       let be := if bind = RH_NULL then none else c.st.ent bind
       let nt := l.bytes "nt"; let nc := l.bytes "nc"
+      let ty := l.nat "type"
       let s : Session := match be with
-        | none => { handle := l.nat "h", nonceTPM := nt, key := [], bound := false, bindName := [], bindAuth := [] }
-        | some e => { handle := l.nat "h", nonceTPM := nt, key := sessionKey e.auth nt nc, bound := true, bindName := e.name, bindAuth := e.auth }
+        | none => { handle := l.nat "h", nonceTPM := nt, key := [], bound := false, bindName := [], bindAuth := [], policy := ty != 0, trial := ty == 3 }
+        | some e => { handle := l.nat "h", nonceTPM := nt, key := sessionKey e.auth nt nc, bound := ty == 0, bindName := e.name, bindAuth := e.auth, policy := ty != 0, trial := ty == 3 }
       let c := if s.key ≠ l.bytes "skey" then mism c s!"session key: harness {l.str "skey"} ≠ reference KDFa {hexOfBytes s.key}" else c
-      let c := branch c s!"sstart/bound={s.bound}"
+      let c := branch c s!"sstart/bound={s.bound}/type={ty}"
       { c with st := { c.st with sess := s :: c.st.sess.filter (·.handle ≠ s.handle) } }
   | "sflush" => { c with st := { c.st with sess := c.st.sess.filter (·.handle ≠ l.nat "h") } }
+  | "pol" =>
+      let c := { c with rep := { c.rep with events := c.rep.events + 1 } }
+      match polOp l, c.st.session (l.nat "sh") with
+      | some op, some s =>
+        let (s', mrc) := policyStep s op
+        let rc := l.nat "rc"
+        let c := branch c s!"pol/{l.str "cc"}/trial={s.trial}/model-rc={mrc}/rc={rc}"
+        let c := if mrc = 0 ∧ rc ≠ 0 then mism c s!"SPEC[policy-step-refused] policy command {l.str "cc"} answered rc={rc}"
+          else if mrc ≠ 0 ∧ rc = 0 then mism c s!"SPEC[policy-step-accepted] policy command {l.str "cc"} must be refused (model rc={mrc}) but succeeded"
+          else if mrc ≠ 0 ∧ rc % 64 + 128 * (rc / 128 % 2) ≠ mrc then mism c s!"policy command {l.str "cc"}: rc={rc}, model base code {mrc}"
+          else c
+        { c with st := { c.st with sess := c.st.sess.map (fun x => if x.handle == s.handle then s' else x) } }
+      | _, _ => mism c "policy command on an unknown session / unknown command"
+  | "pgd" =>
+      let c := { c with rep := { c.rep with events := c.rep.events + 1 } }
+      match c.st.session (l.nat "sh") with
+      | some s => if l.nat "rc" = 0 ∧ l.bytes "digest" ≠ s.pDigest then
+          mism c s!"SPEC[policy-digest] PolicyGetDigest {l.str "digest"} ≠ reference {hexOfBytes s.pDigest}" else branch c "pgd/equal"
+      | none => c
+  | "exists" =>
+      let c := { c with rep := { c.rep with events := c.rep.events + 1 } }
+      let model : Bool := (c.st.ent (l.nat "handle")).isSome
+      let actual : Bool := l.nat "rc" == 0
+      if model ≠ actual then mism c s!"SPEC[unauthorized-effect] index {l.nat "handle"} exists={actual} but the model (authorized deletions only) says {model} (delete answered rc={l.nat "cmd_rc"})"
+      else branch c s!"exists/{actual}"
   | "authchange" => { c with st := c.st.setAuth (l.nat "handle") (l.bytes "auth") }
   | "auth" => stepAuth { c with rep := { c.rep with events := c.rep.events + 1 } } l
   | "effect" =>
